@@ -13,7 +13,7 @@ import common, gen, configs
 LEVEL = "other"
 THEOREMS = ["Mistune.escape_eq_flatMap", "Mistune.escape_roundtrip", "Mistune.iterRender_length",
             "Mistune.evalTmpl_pass", "Mistune.evalTmpl_leaf", "Mistune.leaves_in_order", "Mistune.leaves_in_order_doc", "Mistune.templates_passTypes", "Mistune.templates_leafOps",
-            "Mistune.templates_none_opaque"]
+            "Mistune.templates_none_opaque", "Mistune.renderTok_balanced", "Mistune.render_balanced", "Mistune.templates_balOk", "Mistune.templates_strict", "Mistune.templates_nodup", "Mistune.tagTable_wf"]
 
 VOID = {"br", "hr", "img", "input"}
 BLOCK_EL = {"p", "div", "ul", "ol", "li", "blockquote", "pre", "table", "thead", "tbody", "tr", "td", "th", "h1", "h2", "h3", "h4", "h5", "h6", "hr", "dl", "dt", "dd", "section",
@@ -232,14 +232,23 @@ def focused(rng):
     return "%s\n: %s\n\n  %s\n" % (w(), w(), w())
 
 
+EDGE_DOCS = ["x[^1]\n\n[^1]: \n", "x[^1] y[^2]\n\n[^1]:\t\n[^2]: t\n", ".. image:: p.png\n   :target: javascript:x\n", "```{image} p.png\n:target: vbscript:y\n:alt: a\n```\n",
+             ".. figure:: p.png\n   :target: file:///z\n\n   cap\n\n   legend\n", "```{figure} p.png\n:target: data:text/html,x\n:align: left\n\ncap\n```\n", "[![logo](logo.png) Project home](https://example.com/)\n",
+             "- [ ] \n- [x]\n", "| a |\n|---|\n", "term\n: \n", "> \n", "#\n", "1. \n", "``` \n```\n", "*[A]: \n\nA\n", "$$\n$$\n", ">! \n", "[^1]: n\n\n[^1]\n\n.. toc::\n"]
+
+
 def run(ctx):
     ctx.broken += common.proof_stage(ctx, THEOREMS)
     replay_known(ctx)
     docs = [gen.md_any(ctx.rng, 8) if ctx.rng.random() < 0.8 else focused(ctx.rng) for _ in range(1800 if ctx.quick() else 30000)]
     sweep = gen.slot_sweep()
     ctx.rng.shuffle(sweep)
-    docs += sweep[: (900 if ctx.quick() else len(sweep))]
-    n = oracle(ctx, docs)
+    docs = EDGE_DOCS * 3 + docs + sweep[: (900 if ctx.quick() else len(sweep))]
+    # the tie of the template model the theorems speak about (probing + exact equality of the model's rendering with the HTML)
+    import tmpltie
+    tie_cfgs = [configs.C("core"), configs.C("all", plugins=configs.PLUGINS), configs.C("all-fenced", plugins=configs.PLUGINS, directives="fenced"), configs.C("all-rst", plugins=configs.PLUGINS, directives="rst")]
+    n0 = tmpltie.stage(ctx, docs[: (300 if ctx.quick() else 3000)], tie_cfgs)
+    n = n0 + oracle(ctx, docs)
     if ctx.broken and not ctx.failures:
         ctx.notes.append("search mode entered")
         n += oracle(ctx, [gen.md_any(ctx.rng, 8) for _ in range(20000)])
